@@ -24,6 +24,9 @@ def demo():
     rc, out = sh(cmd, cwd=OUT, timeout=1200)
     # demonstrations report failure through the exit status or by printing FAIL / NG / exit=<n> / rc=<n>
     ok = (rc == 0 and not re.search(r"FAIL|\bNG\b|\bexit=[1-9]|\brc=[1-9]|VIOLATION", out))
+    last = [l.strip() for l in out.split("\n") if l.strip()]
+    if last and re.fullmatch(r"\d+", last[-1]) and last[-1] != "0":     # `...; echo $?` style
+        ok = False
     return ok, rc, out[-1500:]
 
 log = {"property": P, "change": K, "at": time.strftime("%Y-%m-%d %H:%M:%S")}
